@@ -37,6 +37,7 @@ from mc.core import HarnessError
 
 from molli.chem import (
     Atom,
+    AtomStereo,
     AtomGeom,
     AtomType,
     Bond,
@@ -135,7 +136,7 @@ def mkspec(kind, name, atoms, frames, bonds):
 def normspec(spec):
     """after a JSON round trip (replay)"""
     s = dict(spec)
-    s["atoms"] = [[int(a[0]), a[1], int(a[2]), int(a[3])] for a in spec["atoms"]]
+    s["atoms"] = [[int(a[0]), a[1], int(a[2]), int(a[3])] + ([dict(a[4])] if len(a) > 4 else []) for a in spec["atoms"]]
     s["frames"] = [{"xyz": [[fl(c) for c in p] for p in f["xyz"]], "q": [fl(c) for c in f["q"]]} for f in spec["frames"]]
     s["bonds"] = [[int(b[0]), int(b[1]), int(b[2])] for b in spec["bonds"]]
     return s
@@ -165,6 +166,16 @@ def _same_arr(a, b):
     return a.shape == b.shape and bool(np.all((a == b) | (np.isnan(a) & np.isnan(b))))
 
 
+def mk_atom(a):
+    """[Z, label, atype, geom] or [Z, label, atype, geom, {fields mol2 does not store: isotope, stereo, formal_charge, formal_spin, attrib}]"""
+    kw = dict(a[4]) if len(a) > 4 else {}
+    if "stereo" in kw:
+        kw["stereo"] = AtomStereo(kw["stereo"])
+    if "attrib" in kw:
+        kw["attrib"] = dict(kw["attrib"])
+    return Atom(Element(a[0]), label=a[1], atype=AtomType(a[2]), geom=AtomGeom(a[3]), **kw)
+
+
 def build(spec):
     """-> (object, reference spec).  The reference of the write -> read direction is what the OBJECT holds:
     normally exactly the spec; if a constructor stored other numbers (e.g. another dtype) the object's own
@@ -172,7 +183,7 @@ def build(spec):
     kind = spec["kind"]
     n, k = len(spec["atoms"]), len(spec["frames"])
     try:
-        atoms = [Atom(Element(z), label=lab, atype=AtomType(t), geom=AtomGeom(g)) for z, lab, t, g in spec["atoms"]]
+        atoms = [mk_atom(a) for a in spec["atoms"]]
         f0 = spec["frames"][0]
         xyz0 = np.array(f0["xyz"], dtype=float).reshape(n, 3)
         if kind == "S":
@@ -575,7 +586,7 @@ def repro_spec(spec, w, r, history=None):
     lines = [
         "import io, numpy as np, molli as ml",
         "from molli.chem import Atom, Bond, Element, AtomType, AtomGeom, BondType",
-        f"atoms = [Atom(Element(z), label=l, atype=AtomType(t), geom=AtomGeom(g)) for z, l, t, g in {spec['atoms']!r}]",
+        f"atoms = [Atom(Element(a[0]), label=a[1], atype=AtomType(a[2]), geom=AtomGeom(a[3]), **(a[4] if len(a) > 4 else {{}})) for a in {spec['atoms']!r}]",
         "nan, inf = float('nan'), float('inf')",
         f"frames = {[f['xyz'] for f in spec['frames']]!r}",
         f"charges = {[f['q'] for f in spec['frames']]!r}",
@@ -623,8 +634,9 @@ def repro_spec(spec, w, r, history=None):
 def is_nontrivial(spec):
     if not spec["atoms"]:
         return False
-    for (z, lab, t, g), p, q in zip(spec["atoms"], spec["frames"][0]["xyz"], spec["frames"][0]["q"]):
-        if lab or t != int(AtomType.Regular) or g != 0 or q != 0 or any(c == c and c != 0 for c in p):
+    for a, p, q in zip(spec["atoms"], spec["frames"][0]["xyz"], spec["frames"][0]["q"]):
+        z, lab, t, g = a[:4]
+        if len(a) > 4 or lab or t != int(AtomType.Regular) or g != 0 or q != 0 or any(c == c and c != 0 for c in p):
             return True
     return bool(spec["bonds"]) or len(spec["frames"]) > 1
 
@@ -692,6 +704,9 @@ def check_spec(ctx, spec, history=None):
     if history:
         case["history"] = history
     tag = history_tag(history)
+    xf = sorted({k_ for a in spec["atoms"] if len(a) > 4 for k_ in a[4]})
+    if xf:  # input class: atoms carry fields the mol2 format does not store
+        tag = "atom-fields[" + ("+".join(xf) if len(xf) <= 2 else "many") + "]|" + tag
     ctx.count(evaluations=1, states=1, traces=1)
     key = digest((spec, history))
     if is_nontrivial(spec):
@@ -886,7 +901,34 @@ def gen_TC(seed, thorough):
                 yield mkspec(kind, "bt", [(6, "C1", REG, UNKG), (7, "N2", REG, UNKG)], [{"xyz": [tr[0], tr[2]], "q": [0.5, -0.5]}], [(i, j, BT[t])])
 
 
-S_LAYERS = {"S0": gen_S0, "S1": gen_S1, "S2": gen_S2, "S3": gen_S3, "S4": gen_S4, "TC": gen_TC}
+def gen_SX(seed, thorough):
+    """atoms that carry every field the mol2 format does NOT store (isotope, stereo, formal charge / spin, attrib): the text must still
+    read back with everything the format does store"""
+    tr = triples(seed + 9, [v for v in CVALS if v == v])
+    single = [
+        (1, {"isotope": 2}),
+        (1, {"isotope": 3}),
+        (6, {"isotope": 13}),
+        (8, {"isotope": 18}),
+        (7, {"formal_charge": 1}),
+        (8, {"formal_charge": -2}),
+        (6, {"formal_spin": 1}),
+        (6, {"stereo": int(AtomStereo.R)}),
+        (6, {"attrib": {"k": "v", "n": 1}}),
+    ]
+    everything = {"isotope": 2, "formal_charge": -1, "formal_spin": 1, "stereo": int(AtomStereo.S), "attrib": {"note": "x y"}}
+    items = [(z, "L1", REG, UNKG, x) for z, x in single] + [(1, None, REG, UNKG, everything), (1, "D1", int(AtomType.Aromatic), int(AtomGeom.R1), everything), (6, "C9", int(AtomType.sp3), UNKG, dict(everything, isotope=13))]
+    plain = (8, "O2", REG, UNKG)
+    for i, a in enumerate(rot(items, seed)):
+        for kind in ("M", "S", "E"):
+            yield mkspec(kind, "sx", [a], [{"xyz": [tr[i % len(tr)]], "q": [0.25]}], [])
+            frames = [{"xyz": [tr[0], tr[(i + 1) % len(tr)]], "q": [-0.5, 0.125]}]
+            if kind == "E":
+                frames.append({"xyz": [tr[2], tr[(i + 3) % len(tr)]], "q": [0.5, -0.125]})
+            yield mkspec(kind, "sx", [plain, a], frames, [(1, 0, BT["Single"])])
+
+
+S_LAYERS = {"SX": gen_SX, "S0": gen_S0, "S1": gen_S1, "S2": gen_S2, "S3": gen_S3, "S4": gen_S4, "TC": gen_TC}
 
 
 # =================================================================================================
@@ -2103,6 +2145,8 @@ def run(ctx):
         "fixed point = the text of the first write is reproduced byte for byte by writing what the same class read from it",
         "loads_mol2/load_mol2 of a multi-molecule text return the first molecule (documented behaviour); loads_all/ConformerEnsemble return all, in order",
         "an ensemble with 0 conformers has no mol2 text and is out of scope",
+        "layer SX: atoms carrying fields the mol2 format does not store (isotope 2/3 on H, 13 on C, 18 on O, formal charge / spin, stereo, attrib) must still be written as a "
+        "text that reads back with everything the format does store (the existing oracle)",
         "layer LC: free-text alphabet = every printable non-blank ASCII character (33..126) in atom labels (alone, at the start / middle / end, every ordered pair of "
         "the 32 punctuation characters, labels of 1..12 characters next to coordinates of every magnitude) and in molecule names (same, plus an inner blank); all 94 "
         "characters round-trip on the reference tree; excluded: blanks in labels (they separate the fields of an ATOM line) and leading/trailing blanks or an empty "
@@ -2142,7 +2186,7 @@ def run(ctx):
     ctx.note("property_text_says_triples", "119 x 22 x 17; the tree under test has %d x %d x %d" % (nE, nT, nG))
     np_ = 16 if thorough else 8
     parts = []
-    for layer in ("TA", "TA2", "TB", "BL", "S0", "TC", "S4", "SH", "LC", "WE", "HW", "S2", "S1", "S3"):
+    for layer in ("TA", "TA2", "TB", "BL", "S0", "SX", "TC", "S4", "SH", "LC", "WE", "HW", "S2", "S1", "S3"):
         n = 1 if layer in ("S0",) else np_ * (4 if layer in ("S1", "S3", "S2") or (thorough and layer == "HW") else 1)
         parts += [(layer, i, n) for i in range(n)]
     if thorough:
